@@ -117,15 +117,15 @@ Proof.
   set (Y := base_toks p ++ B).
   assert (Hy : exists s r, Y = s :: r /\ (is T_DBL_COLON s || is T_LIT_60 s) = false /\ is_name_start s = false /\
                            is_ptr_ref_paren s = false /\ set_mod (kty s) mods0 = None /\ is SEMI s = false /\
-                           memN (kty s) class_enum_stage2 = true).
+                           memN (kty s) class_enum_stage2 = true /\ memN (kty s) attribute_start_tokens = false).
   { unfold Y, B. destruct p as [p|]; cbn [base_toks app]; eexists; eexists; (split; [reflexivity|]); repeat split; reflexivity. }
-  destruct Hy as (s & r & EY & A1 & A2 & A3 & A4 & A5 & A6).
+  destruct Hy as (s & r & EY & A1 & A2 & A3 & A4 & A5 & A6 & HAT).
   unfold class_stmt_head.
   assert (Hck : ckey_loop mods0 (map ktok key ++ mkTk T_NAME name :: Y) = Some (DOk (mods0, key, Some name, Y))).
   { rewrite EY. destruct Hk as [E|[E|E]]; rewrite E; cbn [map app ckey_loop]; unfold key_name, name_part; cbv beta; change (memN (kty (mkTk T_NAME name)) attribute_start_tokens) with false; cbv iota; change (is T_DBL_COLON (mkTk T_NAME name)) with false; change (is T_NAME (mkTk T_NAME name)) with true; cbv iota; rewrite A1; reflexivity. }
   rewrite Hck.
   assert (Hsl : spec_loop mods0 (Some 0) Y = DOk (mods0, 0, Y)).
-  { rewrite EY. cbn [spec_loop]. rewrite A2, A3, A4. reflexivity. }
+  { rewrite EY. cbn [spec_loop]. rewrite A2, A3, A4, HAT. reflexivity. }
   rewrite Hsl.
   assert (Hce : class_enum key mods0 false false false Y = DOk (CEEnum s, r)).
   { rewrite EY. unfold class_enum. rewrite A5, A6. destruct Hk as [E|[E|E]]; rewrite E; reflexivity. }
